@@ -421,6 +421,7 @@ func (m *Machine) doDispose(force bool) {
 		// already disposing
 		return
 	}
+	verifPoint(m, "dd:disposing")
 	if !force {
 		whenIdle := m.WhenQueueEnds()
 		select {
@@ -433,6 +434,7 @@ func (m *Machine) doDispose(force bool) {
 		// already disposed
 		return
 	}
+	verifPoint(m, "dd:disposed")
 
 	m.tracersMx.RLock()
 	for i := range m.tracers {
@@ -477,6 +479,7 @@ func (m *Machine) doDispose(force bool) {
 
 	close(m.errInternal)
 	m.subs.dispose()
+	verifPoint(m, "dd:subsDisposed")
 	for _, mut := range m.queue {
 		if !mut.IsCheck {
 			continue
@@ -509,6 +512,7 @@ func (m *Machine) doDispose(force bool) {
 	// m.disposeHandlers = nil
 
 	// the end
+	verifPoint(m, "dd:beforeCancel")
 	m.cancel()
 	// fmt.Println("DISPOSED " + m.Id())
 	closeSafe(m.whenDisposed)
